@@ -100,7 +100,7 @@ def build_units(ctx, classes, thorough):
         else:
             rest.append(k)
     keys = firsts + rest
-    budget = ctx.tier_pick(160 * 1024 * 1024, 1400 * 1024 * 1024)   # inflated bytes over all class encodes
+    budget = ctx.tier_pick(160 * 1024 * 1024, 2000 * 1024 * 1024)   # inflated bytes over all class encodes
     reps_per = ctx.tier_pick(1, 2)
     used = 0
     nclasses = 0
@@ -123,7 +123,9 @@ def build_units(ctx, classes, thorough):
             # a Write failure at the k-th call, then the same image again
             ks = set([rng.randrange(1, nw + 1)])
             if thorough:
-                ks |= {1, nw} | set(range(1, min(nw, 4) + 1))
+                ks |= {1, nw}
+            if r is not pick[0]:
+                ks = set()
             for kk in sorted(ks):
                 f = enc(w, h, out, 0, "rand", rng.randrange(1 << 30), fail_at=kk, **meta)
                 g = enc(w, h, out, rng.choice([0, 5]), rng.choice(FILLS), rng.randrange(1 << 30), **meta)
@@ -240,16 +242,18 @@ def sensitivity(ctx, part):
         ("a Write call one byte shorter", idx(lambda e: e["e"] == "write")[0], lambda e: e["v"].__setitem__(1, e["v"][1] - 1)),
         ("decoded pixels differ", idx(lambda e: e["e"] == "pix")[0], lambda e: e.update(ok=False)),
     ]
-    out = []
-    for what, i, f in ctx.rng.sample(menu, 3):
+    def one(item):
+        what, i, f = item
         mut = [json.loads(l) for l in lines]
         f(mut[i])
         p2 = {"events": [json.dumps(e, separators=(",", ":")) for e in mut], "results": []}
         validate(ctx, p2, "corrupted copy (%s)" % what)
         if p2["rejected"] is None:
             raise ToolingError("PngStored accepted a corrupted trace (%s at event %d)" % (what, i + 1))
-        out.append({"corruption": what, "event": i + 1, "rejected_at_event": p2["rejected"]})
-    return out
+        return {"corruption": what, "event": i + 1, "rejected_at_event": p2["rejected"]}
+    picks = ctx.rng.sample(menu, ctx.tier_pick(3, len(menu)))
+    with concurrent.futures.ThreadPoolExecutor(max_workers=4) as ex:
+        return list(ex.map(one, picks))
 
 
 def describe(e, r):
